@@ -51,6 +51,19 @@ def value_invalid(run, op):
         if a is None:
             return True
         return not representable(a['type'], op[2])
+    if k == 'set_raw':
+        # a raw dot assignment that names an allowed child or attribute is the dot_val / set_attr case
+        nm, v = op[1], op[2]
+        if v is None:
+            return False
+        if nm.startswith('xml_'):
+            for a in run.alphabet:
+                if py_name(a) == nm[4:]:
+                    return value_invalid(run, ['dot_val', a, v])
+            return False
+        for a in s.attributes_of(run.tkey):
+            if py_name(a['qname'].split(':')[-1]) == nm:
+                return not representable(a['type'], v)
     return False
 
 
